@@ -70,6 +70,11 @@ pub fn reference_reads(inst: &Instance, hist: &[Act], delivered: &[usize]) -> (V
                 drain(buffered, &mut consumed, &mut frame_idx, &mut results, &mut keepalive_results);
             },
             Act::ReadFail(k) => results.push(format!("Err(IO({:?}))", super::world::fail_kind(*k))),
+            Act::FailStorm(k) => {
+                for _ in 0..super::world::STORM {
+                    results.push(format!("Err(IO({:?}))", super::world::fail_kind(*k)));
+                }
+            },
             Act::Eof => {
                 results.push("Err(Disconnected)".into());
                 eof = true;
@@ -98,7 +103,7 @@ pub fn judge(inst: &Instance, hist: &[Act], r: &RunResult) -> Vec<(String, Strin
             if n > want.len() || r.results[..] != want[..n] {
                 let i = r.results.iter().zip(&want).position(|(a, b)| a != b).unwrap_or(n.min(want.len()));
                 let cancels = hist.iter().filter(|a| matches!(a, Act::Cancel)).count();
-                let cat = if cancels > 0 { "results-differ-after-cancel" } else if hist.iter().any(|a| matches!(a, Act::ReadFail(_))) { "results-differ-after-transient-error" } else { "results-differ" };
+                let cat = if cancels > 0 { "results-differ-after-cancel" } else if hist.iter().any(|a| matches!(a, Act::ReadFail(_) | Act::FailStorm(_))) { "results-differ-after-transient-error" } else { "results-differ" };
                 out.push((cat.into(), format!("read results {:?} but the frames delivered so far give {:?} (first difference at result {i})", brief(&r.results), brief(&want))));
                 return out;
             }
